@@ -13,6 +13,7 @@ import textwrap
 import z3
 
 from . import symx
+from .mxr import _ModelNamespace  # noqa: E402
 from .symx import EngineUnsupported, SymBool, SymInt, mk_int, zint
 
 
@@ -231,7 +232,7 @@ class ElemWise:
         self.at = at
 
 
-class KNP:
+class KNP(metaclass=_ModelNamespace):
     nan = NVal(True, 0)
 
     @staticmethod
@@ -260,19 +261,43 @@ def check_accumulate_kernel(func, out_name):
         if not (isinstance(l.iter, ast.Call) and getattr(l.iter.func, "id", "") == "range" and len(l.iter.args) == 1):
             problems.append(f"line {l.lineno}: loop is not `for v in range(n)`")
     inner_vars = {}
+
+    def is_out_sub(x):
+        return isinstance(x, ast.Subscript) and isinstance(x.value, ast.Name) and x.value.id == out_name
+
+    def mentions_out(x):
+        return any(isinstance(y, ast.Name) and y.id == out_name for y in ast.walk(x))
+
+    def spelled_out_accumulate(p):
+        """`out[j] = out[j] + e` or `out[j] = e + out[j]` (same index text, e free of out): returns the out[j] operand or None"""
+        if not (isinstance(p, ast.Assign) and len(p.targets) == 1 and is_out_sub(p.targets[0]) and isinstance(p.value, ast.BinOp) and isinstance(p.value.op, ast.Add)):
+            return None
+        for me, other in ((p.value.left, p.value.right), (p.value.right, p.value.left)):
+            if is_out_sub(me) and ast.dump(me.slice) == ast.dump(p.targets[0].slice) and not mentions_out(other):
+                return me
+        return None
+    allowed_reads = set()
     for l in loops:
         for n in ast.walk(l):
-            if isinstance(n, ast.AugAssign) and isinstance(n.target, ast.Subscript) and isinstance(n.target.value, ast.Name) and n.target.value.id == out_name:
+            target = None
+            if isinstance(n, ast.AugAssign) and is_out_sub(n.target):
+                target, is_add = n.target, isinstance(n.op, ast.Add)
+            elif isinstance(n, ast.Assign) and any(is_out_sub(t) for t in n.targets):
+                operand = spelled_out_accumulate(n)
+                target, is_add = n.targets[0], operand is not None
+                if operand is not None:
+                    allowed_reads.add(id(operand.value))
+            if target is not None:
                 # innermost enclosing loop variable
                 encl = [x for x in loops if any(y is n for y in ast.walk(x))]
                 innermost = max(encl, key=lambda x: x.lineno)
-                if not (isinstance(n.op, ast.Add) and isinstance(n.target.slice, ast.Name) and isinstance(innermost.target, ast.Name)
-                        and n.target.slice.id == innermost.target.id):
+                if not (is_add and isinstance(target.slice, ast.Name) and isinstance(innermost.target, ast.Name)
+                        and target.slice.id == innermost.target.id):
                     problems.append(f"line {n.lineno}: store into {out_name} is not `{out_name}[<innermost loop variable>] += e`")
                 inner_vars[n.lineno] = True
     for n in ast.walk(fdef):
         if isinstance(n, ast.Name) and n.id == out_name and isinstance(n.ctx, ast.Load):
-            par_ok = False
+            par_ok = id(n) in allowed_reads
             for p in ast.walk(fdef):
                 if isinstance(p, ast.AugAssign) and isinstance(p.target, ast.Subscript) and p.target.value is n:
                     par_ok = True
